@@ -107,3 +107,14 @@ Proof.
     + apply IH. now apply Forall_inv_tail in FY.
   - intros HC. rewrite (Hid HC). now apply (transpose_involutive n (length rs)).
 Qed.
+
+(* the point Slice.project returns always passes Slice.is_in (it is within tol of the slab, cf. slab_is_in_sound) *)
+Lemma slab_result_passes_is_in tol n lw hg (x q : list R) : dot n n <> 0 -> lw <= hg -> 0 <= tol ->
+  slab_project tol n lw hg x = POk q -> slab_is_in tol n lw hg q = POk true.
+Proof.
+  intros Hnn Hlh Ht H. pose proof (slab_project_len_inv _ _ _ _ _ _ H) as HL.
+  pose proof (slab_project_length _ _ _ _ _ _ H) as Lq.
+  destruct (slab_member_relaxed tol n lw hg x q Hnn Hlh Ht H) as [Hh [Hl|[-> Hin]]].
+  - apply slab_is_in_complete; auto; [lia|split; auto].
+  - unfold slab_is_in. cbn [n1 nopp NumR]. rewrite Hin. cbn [pbind]. apply half_is_in_complete; auto. now apply in_half_high.
+Qed.
